@@ -36,8 +36,13 @@ const bytesPrelude = `(declare-sort B 0)
 (declare-fun bsha1 (B) B)
 (declare-fun bripemd160 (B) B)
 (declare-fun bhash160 (B) B)
-(assert (= (blen beps) 0))
-(assert (forall ((a B)) (! (and (>= (blen a) 0) (<= (blen a) 4611686018427387904)) :pattern ((blen a)))))
+`
+
+// bytesAxioms: the theory of byte strings. Only functions verified in token mode (or whose contract asks for it with
+// `opt bytes-axioms 1`) get it: elsewhere byte-string terms coming from callee contracts are uninterpreted, which is all
+// that equational reasoning through them needs, and the quantified axioms only perturb the solver.
+const bytesAxioms = `(assert (= (blen beps) 0))
+(assert (forall ((a B)) (! (>= (blen a) 0) :pattern ((blen a)))))
 (assert (forall ((a B)) (! (=> (= (blen a) 0) (= a beps)) :pattern ((blen a)))))
 (assert (forall ((a B) (b B)) (! (= (blen (bcat a b)) (+ (blen a) (blen b))) :pattern ((bcat a b)))))
 (assert (forall ((a B)) (! (= (bcat beps a) a) :pattern ((bcat beps a)))))
